@@ -49,11 +49,12 @@ CHECKS = {
         assumptions=CODEC_ASSUME,
     ),
     "C11": dict(
-        engine="codec", level="exploration",
-        args=dict(quick=["-len", "7", "-tokens", "4"], thorough=["-len", "8", "-tokens", "5"]),
-        deadline=dict(quick=110, thorough=1500),
+        level="exploration",
+        phases=[dict(engine="codec", args=dict(quick=["-len", "7", "-tokens", "4"], thorough=["-len", "8", "-tokens", "5"])),
+                dict(engine="sess", args=[])],
+        deadline=dict(quick=200, thorough=1800),
         rule="(i) every byte string of length <= L over the alphabet {8,9,1,0,3,=,SOH,A} against 5 message types (Heartbeat, Logon, MarketDataRequest with groups nested three deep, a 3-level nested template, a typed flat template), strict and non-strict, plus ValueByTag for 5 tags; (ii) every sequence of <= K tokens over {SOH,=,35,34,10,0,1,2,A, count tags and first-entry tags of the target} framed with a correct BodyLength and CheckSum. A call must return without panic (watchdog: 10 s without progress = hang). Non-trivial-distinct key: the input string (i) / (target, length, index class) (ii).",
-        assumptions=CODEC_ASSUME + ["the session-level consequence (no peer message makes the inbound path panic) is exercised by the history explorers of C06/C07/C16, whose alphabets contain damaged and truncated messages, with task-panic capture"],
+        assumptions=CODEC_ASSUME + ["second phase (sess engine): the same kind of input through the handler's dispatch and the session's raw-byte look-ups and typed parsers: role x state {before logon, logged on, own TestRequest outstanding, own Logout outstanding} x MsgType {0,1,2,3,4,5,A,D,absent} x every sequence of <= 2 (thorough 3) tokens from a 48-token alphabet of well-formed, empty, value-less, tag-less and duplicated fields of the tags the session reads, correctly framed (a seventh also with a wrong CheckSum); oracle: no task panics, the execution terminates"],
     ),
 }
 
